@@ -30,6 +30,7 @@ def run(tier):
         jobs = [J("types_sub11", 200, 4), J("inferred_tiny", 100, 3, "one path = one (rewriter, pair of value shapes, k class, n class)"),
                 J("types_sub8_pairs", 150, 4, "one path = one (ordered rewriter pair, union member subset, n class)")]
     else:
-        jobs = [J("types_sub14", 1500, 5), J("types_sub17", 2400, 6), J("types_sub10_pairs", 2400, 5),
-                J("inferred_small", 1800, 3), J("types_quick", 1200, 3), J("types_deep", 900, 3), J("types_union", 900, 3)]
+        jobs = [J("types_sub11", 200, 4), J("inferred_tiny", 100, 3), J("types_sub8_pairs", 150, 4),
+                J("types_sub14", 400, 5), J("types_sub17", 400, 6), J("types_sub10_pairs", 400, 5),
+                J("inferred_small", 400, 3), J("types_quick", 300, 3), J("types_deep", 300, 3), J("types_union", 300, 3)]
     return run_check(PID, tier, jobs, H.FUNCTIONS, ASSUMPTIONS)
